@@ -82,13 +82,12 @@ Record gparent : Type := mkPar {
   p_root : nat;
   p_start : N;
   p_end : N;
-  p_sym : sym;                        (* production.symbol / token.symbol of the link *)
   p_alts : list alt                   (* possibilities; children are Parent heap indices, the
                                          span is that of the alternative's own context *)
 }.
 
 Definition dnode : gnode := mkNode O 0 0 None [].
-Definition dpar : gparent := mkPar O O 0 0 (T 0) [].
+Definition dpar : gparent := mkPar O O 0 0 [].
 
 Definition node_id (n : gnode) : nkey := (n_frontier n, n_state n).
 
@@ -147,7 +146,7 @@ Definition n_add_parent (k : nkey) (pi : nat) (n : gnode) : gnode :=
   mkNode (n_state n) (n_pos n) (n_frontier n) (n_tok n) (n_parents n ++ [(k, pi)]).
 (* Parent.merge: possibilities.extend(other.possibilities) *)
 Definition p_add_alts (a : list alt) (p : gparent) : gparent :=
-  mkPar (p_head p) (p_root p) (p_start p) (p_end p) (p_sym p) (p_alts p ++ a).
+  mkPar (p_head p) (p_root p) (p_start p) (p_end p) (p_alts p ++ a).
 
 (* GSSNode.__eq__: same id and the same lookahead token object *)
 Definition otok_same (a b : option token) : bool :=
@@ -162,14 +161,14 @@ Definition node_eq (a b : gnode) : bool :=
 (* GSSNode.create_link for a fresh Parent(head, root, s, e, possibilities=[a]): merge into
    the link registered under the root's id, or register a new link.
    Returns the state, [created] and the heap index of the link used. *)
-Definition create_link (st : gst) (hd root : nat) (s e : N) (x : sym) (a : alt)
+Definition create_link (st : gst) (hd root : nat) (s e : N) (a : alt)
   : gst * bool * nat :=
   let key := node_id (getn st root) in
   match dget key_eqb key (n_parents (getn st hd)) with
   | Some ep => (upd_par st ep (p_add_alts [a]), false, ep)
   | None =>
       let pi := length (s_pars st) in
-      let st1 := set_pars st (s_pars st ++ [mkPar hd root s e x [a]]) in
+      let st1 := set_pars st (s_pars st ++ [mkPar hd root s e [a]]) in
       (upd_node st1 hd (n_add_parent key pi), true, pi)
   end.
 
@@ -330,13 +329,13 @@ Section GLR.
           let e := n_pos n + tk_len tk in
           match dget Nat.eqb s' (s_active st) with
           | Some sh =>
-              let '(st1, _, _) := create_link st sh h s e (T (tk_sym tk)) (ATerm (tk_sym tk) s e) in
+              let '(st1, _, _) := create_link st sh h s e (ATerm (tk_sym tk) s e) in
               shift_loop st1 r (Some (tok_end tk))
           | None =>
               let sh := length (s_nodes st) in
               let st1 := set_nodes st (s_nodes st ++ [mkNode s' e (n_frontier n + 1) None []]) in
               let st2 := set_active st1 (dset Nat.eqb s' sh (s_active st1)) in
-              let '(st3, _, _) := create_link st2 sh h s e (T (tk_sym tk)) (ATerm (tk_sym tk) s e) in
+              let '(st3, _, _) := create_link st2 sh h s e (ATerm (tk_sym tk) s e) in
               shift_loop st3 r (Some e)
           end
     end.
@@ -478,7 +477,7 @@ Section GLR.
                 let hn := getn st h in
                 match dget Nat.eqb s' (s_active st) with
                 | Some ah =>
-                    let '(st1, created, pi) := create_link st ah root s e (NT (lhs pr)) a in
+                    let '(st1, created, pi) := create_link st ah root s e a in
                     if created then
                       match dget Nat.eqb s' (s_trav st1) with
                       | Some tset =>
@@ -495,7 +494,7 @@ Section GLR.
                     let nh := length (s_nodes st) in
                     let st1 := set_nodes st (s_nodes st ++
                                  [mkNode s' (n_pos hn) (n_frontier hn) (n_tok hn) []]) in
-                    let '(st2, _, _) := create_link st1 nh root s e (NT (lhs pr)) a in
+                    let '(st2, _, _) := create_link st1 nh root s e a in
                     let st3 := set_actor st2 (s_actor st2 ++ [nh]) in
                     Go (set_active st3 (dset Nat.eqb s' nh (s_active st3))) k
                 end
